@@ -15,7 +15,7 @@ def _lin(n, start=0.0, step=1.0):
 
 def cf1d(ny, nx, *, lat=None, lon=None, ydim='y', xdim='x', lat_name='lat', lon_name='lon',
          as_coords=True, lat_bounds=None, lon_bounds=None, data_vars=None, attrs=None,
-         lat_attrs=None, lon_attrs=None):
+         lat_attrs=None, lon_attrs=None, bounds_dims=None):
     """CF grid with 1-D coordinates lat(ydim), lon(xdim)."""
     lat = _lin(ny, 10.0, 1.0) if lat is None else lat
     lon = _lin(nx, 100.0, 2.0) if lon is None else lon
@@ -26,10 +26,10 @@ def cf1d(ny, nx, *, lat=None, lon=None, ydim='y', xdim='x', lat_name='lat', lon_
     variables = {}
     if lat_bounds is not None:
         la['bounds'] = lat_name + '_bnds'
-        variables[lat_name + '_bnds'] = ((ydim, 'bnds'), lat_bounds)
+        variables[lat_name + '_bnds'] = ((ydim, 'bnds') if bounds_dims is None else bounds_dims[0], lat_bounds)
     if lon_bounds is not None:
         lo['bounds'] = lon_name + '_bnds'
-        variables[lon_name + '_bnds'] = ((xdim, 'bnds'), lon_bounds)
+        variables[lon_name + '_bnds'] = ((xdim, 'bnds') if bounds_dims is None else bounds_dims[1], lon_bounds)
     coords = {}
     target = coords if as_coords else variables
     target[lat_name] = ((ydim,), lat, la)
@@ -46,7 +46,7 @@ def _assemble(variables, coords, data_vars, attrs):
 
 
 def cf2d(ny, nx, *, lat=None, lon=None, ydim='y', xdim='x', lat_name='lat', lon_name='lon',
-         as_coords=True, lat_bounds=None, lon_bounds=None, data_vars=None, attrs=None):
+         as_coords=True, lat_bounds=None, lon_bounds=None, data_vars=None, attrs=None, bounds_dims=None):
     """CF grid with 2-D coordinates lat(ydim, xdim), lon(ydim, xdim)."""
     if lat is None or lon is None:
         jj, ii = numpy.meshgrid(numpy.arange(ny, dtype=float), numpy.arange(nx, dtype=float), indexing='ij')
@@ -57,10 +57,10 @@ def cf2d(ny, nx, *, lat=None, lon=None, ydim='y', xdim='x', lat_name='lat', lon_
     variables = {}
     if lat_bounds is not None:
         la['bounds'] = lat_name + '_bnds'
-        variables[lat_name + '_bnds'] = ((ydim, xdim, 'four'), lat_bounds)
+        variables[lat_name + '_bnds'] = (bounds_dims or (ydim, xdim, 'four'), lat_bounds)
     if lon_bounds is not None:
         lo['bounds'] = lon_name + '_bnds'
-        variables[lon_name + '_bnds'] = ((ydim, xdim, 'four'), lon_bounds)
+        variables[lon_name + '_bnds'] = (bounds_dims or (ydim, xdim, 'four'), lon_bounds)
     coords = {}
     target = coords if as_coords else variables
     target[lat_name] = ((ydim, xdim), lat, la)
